@@ -1276,3 +1276,64 @@ Proof.
   rewrite G in G2. inversion G2; subst s2. rewrite P in P2. inversion P2; subst vs'.
   rewrite generate_expected_gen with (all := ops); [exact G | exact Hok | auto].
 Qed.
+
+(* ======================================================================================== *)
+(* H. a PUSH_SUBSCRIPT value is its source bytes: generation embeds them verbatim             *)
+(* ======================================================================================== *)
+
+Definition chunk (op : topcode) (vs : values) : option bytes :=
+  match op with
+  | OpLit o => Some [byte_of_N o]
+  | PushSingle n => match lookup n vs with Some (VBytes d) => Some (push d) | _ => None end
+  | PushInteger n => match lookup n vs with Some (VInt v) => Some (push (int_bytes v)) | _ => None end
+  | PushSub n _ => match lookup n vs with Some (VSub _ src) => Some (push src) | _ => None end
+  | PushMany n => match lookup n vs with Some (VList l) => Some (concat (map push l)) | _ => None end
+  | SmallInt n => match lookup n vs with
+                  | Some (VSmall k) => if (1 <=? k) && (k <=? 16) then Some [byte_of_N (OP_1 + (k - 1))] else None
+                  | _ => None end
+  end.
+
+Lemma generate_cons op r vs :
+  generate (op :: r) vs = match chunk op vs, generate r vs with Some c, Some s => Some (c ++ s) | _, _ => None end.
+Proof. destruct op; reflexivity. Qed.
+
+Theorem subscript_verbatim_general : forall ops vs s n t t' src,
+  generate ops vs = Some s -> In (PushSub n t) ops -> lookup n vs = Some (VSub t' src) ->
+  exists pre post, s = pre ++ push src ++ post.
+Proof.
+  induction ops as [|op r IH]; intros vs s n t t' src G HIn L; [destruct HIn|].
+  rewrite generate_cons in G.
+  destruct (chunk op vs) as [c|] eqn:C; [|discriminate].
+  destruct (generate r vs) as [sr|] eqn:Gr; [|discriminate].
+  inversion G; subst s. destruct HIn as [E|HIn].
+  - subst op. cbn [chunk] in C. rewrite L in C. inversion C. exists [], sr. reflexivity.
+  - destruct (IH vs sr n t t' src Gr HIn L) as (pre & post & ->).
+    exists (c ++ pre), post. rewrite app_assoc. reflexivity.
+Qed.
+
+Theorem timelock_spend_verbatim : forall sig pk t src,
+  generate (snd REDEEM_SCRIPT_HASH_TIME_LOCK)
+           [(F_signature, VBytes sig); (F_pubkey, VBytes pk); (F_script, VSub t src)]
+  = Some (push sig ++ push pk ++ push src).
+Proof. intros. cbn. rewrite app_nil_r. reflexivity. Qed.
+
+(* ANY redeem script bytes (canonical or not, a time-lock script or not) offered as the subscript:
+   the spending input is sig, pubkey and exactly those bytes, and parses back to exactly those bytes *)
+Theorem timelock_spend_any_redeem_script : forall sig pk src,
+  N.of_nat (length sig) < LIMIT -> N.of_nat (length pk) < LIMIT -> N.of_nat (length src) < LIMIT -> src <> [] ->
+  parse_input (push sig ++ push pk ++ push src) =
+  SMatch T_script_hash_timelock
+         [(F_signature, VBytes sig); (F_pubkey, VBytes pk); (F_script, VSub SubTimeLock src)].
+Proof.
+  intros sig pk src Hs Hp Hsrc Hne.
+  set (vs := [(F_signature, VBytes sig); (F_pubkey, VBytes pk); (F_script, VSub SubTimeLock src)]).
+  assert (F : values_fit (snd REDEEM_SCRIPT_HASH_TIME_LOCK) vs).
+  { intros op HIn. simpl in HIn.
+    repeat (destruct HIn as [<-|HIn]; [cbn [lookup field_eqb field_code N.eqb Pos.eqb vs]|]); try contradiction.
+    - exists sig. split; [reflexivity | exact Hs].
+    - exists pk. split; [reflexivity | exact Hp].
+    - exists SubTimeLock, src. split; [reflexivity|]. split; [exact Hne | exact Hsrc]. }
+  destruct (generate_parse_input_fit T_script_hash_timelock _ vs
+              (or_intror (or_intror (or_introl eq_refl))) F) as (s & G & P).
+  unfold vs in G. rewrite timelock_spend_verbatim in G. inversion G; subst s. exact P.
+Qed.
